@@ -9,7 +9,7 @@ Ltac projs :=
   cbn [chain seen pend sub pc cur curh current scanning retryq armed w cfg outq recvd told gf
        set_chain set_seen set_pend set_sub set_pc set_cur set_current set_scanning
        set_retryq set_armed set_w set_cfg set_out set_told set_gf
-       flag_f10 flag_nf flag_coll g_f10 g_nf g_coll emit_conn emit_disc advance scan_latch
+       flag_nf flag_coll g_nf g_coll emit_conn emit_disc advance scan_latch
        fst snd] in *.
 
 Ltac split_match :=
@@ -175,7 +175,8 @@ Record Env (s : state) : Prop := {
   e_chain : forall h, In h (chain s) -> known s h;
   e_nodup : NoDup (ids s);
   e_par : parent_ok s;
-  e_pos : forall h, known s h -> 0 <= hh h
+  e_pos : forall h, known s h -> 0 <= hh h;
+  e_gen : forall a b, known s a -> known s b -> hh a = 0 -> hh b = 0 -> a = b
 }.
 
 Definition SubOK (s : state) : Prop :=
@@ -189,6 +190,7 @@ Definition pc_inv (s : state) : Prop :=
     known s h /\ 0 < hh h /\ hprev h = hid (cur s) /\ tcur s
   | PFilC | PBlkC => curh s = snd (told s) + 1 /\ hprev (cur s) = fst (told s)
   | PRew r _ => told s = (hprev (cur s), curh s - 1) /\ 0 < r < curh s
+  | PBack => tcur s /\ 0 < curh s
   | PDone | PDead => True
   | _ => tcur s
   end.
@@ -211,7 +213,7 @@ Proof. unfold known, env_eq; intros s s' h (_ & E & _) H; rewrite E; exact H. Qe
 
 Lemma Env_env : forall s s', Env s -> env_eq s s' -> Env s'.
 Proof.
-  intros s s' [A B C D E F] (E1 & E2 & E3).
+  intros s s' [A B C D E F G] (E1 & E2 & E3).
   split; unfold parent_ok, known, ids in *.
   - rewrite E1; exact A.
   - rewrite E1; exact B.
@@ -219,6 +221,7 @@ Proof.
   - rewrite E2; exact D.
   - rewrite E2; exact E.
   - rewrite E2; exact F.
+  - rewrite E2; exact G.
 Qed.
 
 Lemma functional : forall s a b, Env s -> known s a -> known s b -> hid a = hid b -> a = b.
@@ -338,6 +341,14 @@ Proof.
 Qed.
 
 (* --------------------------------------------- the pending call returns *)
+Section WithFilter.
+(* every filter oracle: the walk does not depend on what the filters say *)
+Variable fmatch : list N -> block -> bool.
+Notation do_call := (Model.do_call fmatch).
+Notation do_ev := (Model.do_ev fmatch).
+Notation step := (Model.step fmatch).
+Notation run := (Model.run fmatch).
+
 Lemma do_call_env : forall r s, env_eq s (do_call r s).
 Proof.
   intros r s. unfold env_eq, do_call. blast; autorewrite with frame; projs; auto.
@@ -378,10 +389,9 @@ Qed.
 
 Lemma do_call_post : forall r s,
   Env s -> Mid (told s) s -> pc_inv s ->
-  g_f10 (gf (do_call r s)) = false ->
   Post (told s) (do_call r s).
 Proof.
-  intros r s He M Hpc Hf. unfold do_call in *. unfold pc_inv in Hpc.
+  intros r s He M Hpc. unfold do_call in *. unfold pc_inv in Hpc.
   destruct (pc s) eqn:Epc.
   - (* PIdle *) split; [exact M | unfold pc_inv; rewrite Epc; exact Hpc].
   - (* PSelect *) split; [exact M | unfold pc_inv; rewrite Epc; exact Hpc].
@@ -391,12 +401,14 @@ Proof.
     destruct (by_height (curh s + 1) (chain s)) as [h|] eqn:Eh; [|post_dead].
     apply by_height_some in Eh. destruct Eh as [Hin Hhh].
     pose proof (e_chain _ He h Hin) as Kh.
-    set (s2 := scan_latch h (advance h (flag_f10 (negb (N.eqb (hprev h) (hid (cur s)))) s))) in *.
-    assert (Hpar : hprev h = hid (cur s)).
-    { destruct (negb (is_nil (wlist (w s2))) && scanning s2) in Hf;
-        [| rewrite goto_top_gf in Hf]; subst s2; kprojs;
-        apply orb_false_elim in Hf; destruct Hf as [_ Hf];
-        apply negb_false_iff, N.eqb_eq in Hf; exact Hf. }
+    destruct (N.eqb_spec (hprev h) (hid (cur s))) as [Hpar|Hpar]; cbn [negb].
+    2:{ (* not a child: the current block cannot be the genesis block *)
+      split; [mid_tac M | unfold pc_inv; projs; split; [exact Hpc|]].
+      pose proof (m_h _ _ M) as Hc. pose proof (e_pos _ He _ (m_cur _ _ M)) as Hge.
+      destruct (Z.eq_dec (curh s) 0) as [H0|H0]; [exfalso | lia].
+      destruct (e_par _ He h Kh) as (p & Kp & Hid & Hhp); [lia|].
+      assert (p = cur s) by (apply (e_gen _ He); auto; [apply (m_cur _ _ M) | lia | lia]). subst p. auto. }
+    set (s2 := scan_latch h (advance h s)) in *.
     assert (M2 : Mid (told s) s2).
     { subst s2. destruct M as [A B C D]; split; kprojs; auto. }
     destruct (negb (is_nil (wlist (w s2))) && scanning s2).
@@ -405,6 +417,18 @@ Proof.
       * destruct M2 as [A B C D]; split; kprojs; auto.
         apply walk_conn; auto; subst s2; kprojs; rewrite Hpc; cbn; auto.
       * unfold tcur; projs. reflexivity.
+  - (* PBack *)
+    destruct Hpc as [T Hpos].
+    destruct (by_id (hprev (cur s)) (chain s)) as [p|] eqn:Ep; [|post_dead].
+    apply by_id_some in Ep. destruct Ep as [Hin Hid].
+    pose proof (e_chain _ He p Hin) as Kp.
+    pose proof (m_h _ _ M) as Hc.
+    assert (Hhp : hh p = curh s - 1).
+    { destruct (e_par _ He (cur s) (m_cur _ _ M)) as (p' & Kp' & Hid' & Hh'); [lia|].
+      assert (p = p') by (apply (functional s); auto; congruence). subst. lia. }
+    apply goto_top_ok.
+    + destruct M as [A B C D]; split; kprojs; auto; try lia. apply (walk_disc _ s); auto.
+    + unfold tcur; projs. rewrite Hid. reflexivity.
   - (* PSub *)
     destruct (backlog s (curh s)) as [q|]; [|post_dead].
     apply goto_top_ok; [mid_tac M; intros ? [] | kprojs; exact Hpc].
@@ -419,7 +443,7 @@ Proof.
       - unfold tcur; projs. reflexivity. }
     destruct r.
     + destruct (find_block (hid (cur s)) (seen s)); [|post_dead].
-      destruct (matches (wlist (w s)) b).
+      destruct (fmatch (wlist (w s)) b).
       * split; [mid_tac M | unfold pc_inv; projs; auto].
       * apply G; auto.
     + post_dead.
@@ -446,7 +470,7 @@ Proof.
     destruct Hpc as (K & P & Hp & T).
     destruct r; try (apply retry_later_ok; auto).
     destruct (find_block (hid h) (seen s)); [|apply retry_later_ok; auto].
-    destruct (matches (wlist (w s)) b).
+    destruct (fmatch (wlist (w s)) b).
     + split; [mid_tac M | unfold pc_inv; kprojs; auto].
     + destruct (conn_cur_mid (told s) s h [] (w s) (scanning s) He M T K P Hp) as [M' T'].
       replace s with (set_scanning (scanning s) (set_w (w s) s)) at 2 3 by (destruct s; reflexivity).
@@ -697,7 +721,7 @@ Proof.
     { revert Hc. unfold push_ntfn. destruct (sub s1); projs; auto. }
     subst s1; projs. apply orb_false_elim in H; apply H. }
   assert (I1 : Inv s1).
-  { destruct I as [[A B C D E F] S K H Q P Id].
+  { destruct I as [[A B C D E F Gn] S K H Q P Id].
     assert (G1 : Env s1).
     { split; subst s1; kprojs.
       - discriminate.
@@ -715,7 +739,11 @@ Proof.
         + exists t. split; [apply Kn; exact Kt | cbn; split; [reflexivity | lia]].
       - intros x Hx. rewrite map_app in Hx.
         apply in_app_or in Hx. destruct Hx as [Hx|[<-|[]]]; [apply F; exact Hx|].
-        cbn. pose proof (F t Kt). lia. }
+        cbn. pose proof (F t Kt). lia.
+      - intros x y Hx Hy. rewrite map_app in Hx, Hy. pose proof (F t Kt) as Ft.
+        apply in_app_or in Hx. apply in_app_or in Hy.
+        destruct Hx as [Hx|[<-|[]]], Hy as [Hy|[<-|[]]]; cbn; intros; try lia.
+        apply Gn; auto. }
     assert (G2 : SubOK s1).
     { intros q n Hq Hin. eapply ntfn_ok_seen; [exact Kn | eapply S; eauto]. }
     assert (G3 : known s1 (cur s1)) by (apply Kn; exact K).
@@ -739,7 +767,7 @@ Proof.
   destruct (chain s) as [|t [|t' r]] eqn:Ech; try exact I.
   set (s1 := set_chain (t' :: r) s).
   assert (Kn : forall x, known s x -> known s1 x) by (intros x Hx; exact Hx).
-  destruct I as [[A B C D E F] S K H Q P Id].
+  destruct I as [[A B C D E F Gn] S K H Q P Id].
   assert (G1 : Env s1).
   { split; subst s1; kprojs; auto.
     - discriminate.
@@ -779,12 +807,12 @@ Qed.
 
 Lemma do_ev_inv : forall e s,
   Inv s -> outq s = [] ->
-  g_f10 (gf (do_ev e s)) = false -> g_coll (gf (do_ev e s)) = false ->
+  g_coll (gf (do_ev e s)) = false ->
   Inv (do_ev e s) /\
   (pc s <> PIdle -> walk_from (told s) (outq (do_ev e s)) = Some (told (do_ev e s))) /\
   (pc s = PIdle -> outq (do_ev e s) = []).
 Proof.
-  intros e s I Ho Hf Hc.
+  intros e s I Ho Hc.
   pose proof (Inv_mid s I Ho) as M.
   assert (Sok : forall q n, sub s = Some q -> In n q -> ntfn_ok s n) by (apply I).
   destruct e.
@@ -819,7 +847,7 @@ Proof.
     intros X. exfalso. revert X. apply recv_update_ni.
   - (* call returns *)
     cbn [do_ev] in *.
-    pose proof (do_call_post r s (i_env _ I) M (i_pc _ I) Hf) as P.
+    pose proof (do_call_post r s (i_env _ I) M (i_pc _ I)) as P.
     split; [|split].
     + eapply thread_inv; [exact I | apply do_call_env | | exact P | ].
       * intros q n Hq Hin. destruct (do_call_sub r s) as [E|[E|(q0 & Hb & E)]]; rewrite E in Hq.
@@ -856,7 +884,7 @@ Qed.
 
 (* ------------------------------------------------- flags only ever rise *)
 Lemma do_ev_gf : forall e s,
-  (g_f10 (gf (do_ev e s)) = false -> g_f10 (gf s) = false) /\
+  (g_nf (gf (do_ev e s)) = false -> g_nf (gf s) = false) /\
   (g_coll (gf (do_ev e s)) = false -> g_coll (gf s) = false).
 Proof.
   intros e s. destruct e; cbn [do_ev]; unfold push_ntfn, do_call, do_ntfn;
@@ -864,6 +892,7 @@ Proof.
   blast; autorewrite with frame; rewrite ?start_gf; projs;
   (split; intros H; try apply orb_false_elim in H; try tauto; auto).
   all: try (unfold recv_update, settle in *; revert H; blast; auto).
+  all: try discriminate.
 Qed.
 
 Lemma do_ev_ni : forall e s, pc s <> PIdle -> pc (do_ev e s) <> PIdle.
@@ -1002,16 +1031,16 @@ Proof. intros s I. eapply Inv_frame; try exact I; try reflexivity. apply I. Qed.
 
 Lemma step_rel : forall s m e,
   Inv s -> chain_rel s m -> told_rel s m ->
-  g_f10 (gf (fst (step s e))) = false -> g_coll (gf (fst (step s e))) = false ->
+  g_coll (gf (fst (step s e))) = false ->
   Inv (fst (step s e)) /\
   chain_rel (fst (step s e)) (fst (fst (mon_step m (e, snd (step s e))))) /\
   told_rel (fst (step s e)) (fst (fst (mon_step m (e, snd (step s e))))) /\
   snd (fst (mon_step m (e, snd (step s e)))) = true.
 Proof.
-  intros s m e I Rc Rt Hf Hc. unfold step in *. cbn [fst snd] in *.
+  intros s m e I Rc Rt Hc. unfold step in *. cbn [fst snd] in *.
   set (s0 := set_out [] false s) in *.
   pose proof (Inv_out s I) as I0. fold s0 in I0.
-  destruct (do_ev_inv e s0 I0 eq_refl Hf Hc) as (I' & W & Z).
+  destruct (do_ev_inv e s0 I0 eq_refl Hc) as (I' & W & Z).
   unfold mon_step. cbn [fst snd ocbs orecv].
   pose proof (chain_do_ev e s0 m Rc) as Rc'.
   pose proof (mon_cbs_chain (outq (do_ev e s0)) (mon_env m e)) as Ec.
@@ -1043,30 +1072,31 @@ Proof.
 Qed.
 
 Lemma run_flags : forall evs s,
-  g_f10 (gf (fst (run s evs))) = false -> g_coll (gf (fst (run s evs))) = false ->
-  g_f10 (gf s) = false /\ g_coll (gf s) = false.
+  (g_nf (gf (fst (run s evs))) = false -> g_nf (gf s) = false) /\
+  (g_coll (gf (fst (run s evs))) = false -> g_coll (gf s) = false).
 Proof.
-  induction evs as [|e r IH]; intros s Hf Hc; cbn [run fst] in *; [auto|].
+  induction evs as [|e r IH]; intros s; cbn [run fst] in *; [auto|].
   destruct (step s e) as [s1 o] eqn:Es. destruct (run s1 r) as [s2 os] eqn:Er. cbn [fst snd] in *.
-  specialize (IH s1). rewrite Er in IH. destruct (IH Hf Hc) as [F1 C1].
+  specialize (IH s1). rewrite Er in IH. destruct IH as [F1 C1].
   assert (s1 = do_ev e (set_out [] false s)) by (unfold step in Es; inversion Es; reflexivity).
-  subst s1. destruct (do_ev_gf e (set_out [] false s)) as [A B]. split; [apply A | apply B]; auto.
+  subst s1. destruct (do_ev_gf e (set_out [] false s)) as [A B].
+  split; intros H; [apply (A (F1 H)) | apply (B (C1 H))].
 Qed.
 
 Lemma run_walk : forall evs s m,
   Inv s -> chain_rel s m -> told_rel s m ->
-  g_f10 (gf (fst (run s evs))) = false -> g_coll (gf (fst (run s evs))) = false ->
+  g_coll (gf (fst (run s evs))) = false ->
   snd (fst (mon_run m (combine evs (snd (run s evs))))) = true.
 Proof.
-  induction evs as [|e r IH]; intros s m I Rc Rt Hf Hc; cbn [run fst snd combine mon_run] in *; [reflexivity|].
+  induction evs as [|e r IH]; intros s m I Rc Rt Hc; cbn [run fst snd combine mon_run] in *; [reflexivity|].
   destruct (step s e) as [s1 o] eqn:Es. destruct (run s1 r) as [s2 os] eqn:Er.
   cbn [fst snd combine mon_run] in *.
-  pose proof (run_flags r s1) as Fl. rewrite Er in Fl. destruct (Fl Hf Hc) as [F1 C1].
+  pose proof (run_flags r s1) as Fl. rewrite Er in Fl. pose proof (proj2 Fl Hc) as C1.
   pose proof (step_rel s m e I Rc Rt) as SR. rewrite Es in SR. cbn [fst snd] in SR.
-  destruct (SR F1 C1) as (I1 & Rc1 & Rt1 & A).
+  destruct (SR C1) as (I1 & Rc1 & Rt1 & A).
   destruct (mon_step m (e, o)) as [[m1 a] b]. cbn [fst snd] in *.
   specialize (IH s1 m1 I1 Rc1 Rt1). rewrite Er in IH. cbn [fst snd] in IH.
-  specialize (IH Hf Hc).
+  specialize (IH Hc).
   destruct (mon_run m1 (combine r os)) as [[m2 a'] b']. cbn in *. subst. reflexivity.
 Qed.
 
@@ -1079,6 +1109,7 @@ Proof.
   - constructor; [intros [] | constructor].
   - intros h [<-|[]] H; cbn in H; lia.
   - intros h [<-|[]]; cbn; lia.
+  - intros a b [<-|[]] [<-|[]]; reflexivity.
   - intros q n H; discriminate.
   - auto.
   - reflexivity.
@@ -1087,17 +1118,19 @@ Proof.
   - reflexivity.
 Qed.
 
-Theorem walk_unless : forall gid gtime evs,
+Theorem walk_all : forall gid gtime evs,
   let r := run (init gid gtime) evs in
-  g_coll (gf (fst r)) = false -> g_f10 (gf (fst r)) = false ->
+  g_coll (gf (fst r)) = false ->
   walk_ok gid gtime (combine evs (snd r)) = true.
 Proof.
-  intros gid gtime evs r Hc Hf. unfold walk_ok. subst r.
+  intros gid gtime evs r Hc. unfold walk_ok. subst r.
   apply run_walk; auto.
   - apply Inv_init.
   - reflexivity.
   - reflexivity.
 Qed.
+
+End WithFilter.
 
 (* --------------------------- matching: the code's scan is the spec's scan *)
 Definition proj_watch (x : watch) : swatch := (waddrs x, map fst (winputs x)).
